@@ -11,7 +11,7 @@
    PinNoFinallyClose re-enables the pinned tree (no close on the error path; fixed by ab1e880). *)
 EXTENDS Naturals, Sequences, FiniteSets, TLC
 CONSTANTS MaxRetries, Timeouts, PinNoFinallyClose
-Outcomes == {"reply", "none", "late", "two", "icmp", "lost", "gone"}
+Outcomes == {"reply", "none", "late", "two", "icmp", "lost", "gone", "empty"}    \* empty: a zero-length reply datagram (a reply like any other)
 VARIABLES retries, timeout, script, k, left, sock, sent, now, pc, outcome, lateDrops
 vars == <<retries, timeout, script, k, left, sock, sent, now, pc, outcome, lateDrops>>
 
@@ -29,7 +29,7 @@ Close(s, i) == [s EXCEPT ![i] = "closed"]
 Wait ==
   /\ pc = "wait"
   /\ LET o == script[k] IN
-     CASE o \in {"reply", "two"} ->
+     CASE o \in {"reply", "two", "empty"} ->
             \* datagram_received: set_result, transport.close(); a second datagram is dropped by the closed transport
             /\ now' = now + timeout \div 2 /\ sock' = Close(sock, k)
             /\ outcome' = [kind |-> "result", attempt |-> k, at |-> now + timeout \div 2] /\ pc' = "done"
@@ -66,6 +66,6 @@ TimeoutAtRetriesTimesTimeout == (pc = "done" /\ outcome.kind = "Timeout") => (ou
 FirstReplyReturned == (pc = "done" /\ FirstAnswered # 0) =>
                         /\ outcome.attempt = FirstAnswered /\ sent = FirstAnswered
                         /\ outcome.at = (FirstAnswered - 1) * timeout + timeout \div 2
-                        /\ (script[FirstAnswered] \in {"reply", "two"} <=> outcome.kind = "result")
+                        /\ (script[FirstAnswered] \in {"reply", "two", "empty"} <=> outcome.kind = "result")
 Terminates == <>(pc = "done")
 ====
